@@ -45,9 +45,21 @@ def score_np(name, x, c, nc, cats):
     s = np.where((xr[..., 0] > 0.9) if nc else False, np.inf, -np.sum((xr - 0.3) ** 2, axis=-1))
   elif name == 'neginf-almost-everywhere':
     s = np.where(np.all(np.abs(xr - 0.5) < 1e-3, axis=-1) if nc else False, 1.0, -np.inf)
+  elif name == 'needles':
+    s = -np.sum((xr - FAR[:nc]) ** 2, axis=-1)
+    s = np.where(np.sum((xr - NEEDLE_Q[:nc]) ** 2, axis=-1) < 1e-8, 5.0, s)
+    s = np.where(np.sum((xr - NEEDLE_P[:nc]) ** 2, axis=-1) < 1e-8, 10.0, s)
   if name in ('categorical', 'interior') and len(cats):
     s = s + 0.5 * (c[..., 0] == (cats[0] - 1))
   return s
+
+
+# 'needles': a smooth background that is best far away, and two needle-thin peaks next to each other (P: 10, Q: 5); only a prior
+# point can know where they are
+FAR = np.array([0.9, 0.1, 0.9], dtype=np.float32)
+NEEDLE_P = np.array([0.300, 0.700, 0.300], dtype=np.float32)
+NEEDLE_Q = np.array([0.305, 0.705, 0.305], dtype=np.float32)
+NEEDLE_N = np.array([0.320, 0.720, 0.320], dtype=np.float32)
 
 
 def make_score(name, nc, cats):
@@ -72,6 +84,10 @@ def make_score(name, nc, cats):
       s = jnp.where((xr[..., 0] > 0.9) if nc else False, jnp.inf, -jnp.sum((xr - 0.3) ** 2, axis=-1))
     elif name == 'neginf-almost-everywhere':
       s = jnp.where(jnp.all(jnp.abs(xr - 0.5) < 1e-3, axis=-1) if nc else False, 1.0, -jnp.inf)
+    elif name == 'needles':
+      s = -jnp.sum((xr - FAR[:nc]) ** 2, axis=-1)
+      s = jnp.where(jnp.sum((xr - NEEDLE_Q[:nc]) ** 2, axis=-1) < 1e-8, 5.0, s)
+      s = jnp.where(jnp.sum((xr - NEEDLE_P[:nc]) ** 2, axis=-1) < 1e-8, 10.0, s)
     if name in ('categorical', 'interior') and len(cats):
       s = s + 0.5 * (c[..., 0] == (cats[0] - 1))
     if x.ndim == 3:      # parallel acquisition: one value per set of n_parallel points
@@ -103,8 +119,18 @@ def shard(task):
     opt = vb.VectorizedOptimizerFactory(strategy_factory=sf, max_evaluations=cfg['evals'], suggestion_batch_size=cfg['batch'], use_fori=fori)(conv)
     prior = None
     prior_trials = []
-    if cfg['prior']:
-      best = {'interior': 0.3, 'corner': 1.0, 'categorical': 0.5, 'plateau': 0.0, 'neginf-region': 0.0, 'constant': 0.5, 'posinf-region': 0.95, 'neginf-almost-everywhere': 0.5}[cfg['score']]
+    if cfg['score'] == 'needles':
+      # more prior points than the pool holds, oldest first: the best one (P) and its neighbour (Q) at chosen positions among the
+      # old ones, a mediocre neighbour (N) among the recent ones, everything else far away
+      from vizier._src.jax import types
+      rng = np.random.default_rng(cfg['seed'])
+      pts = rng.uniform(low=[0.5, 0.0, 0.5][:nc], high=[1.0, 0.5, 1.0][:nc], size=(cfg['prior'], nc)).astype(np.float32)
+      iq, ip = cfg['needle_at']
+      pts[iq], pts[ip], pts[cfg['prior'] // 2] = NEEDLE_Q[:nc], NEEDLE_P[:nc], NEEDLE_N[:nc]
+      prior_trials = [vz.Trial(parameters={'x%d' % i: float(v) for i, v in enumerate(row)}) for row in pts]
+      prior = types.ModelInput(continuous=types.PaddedArray.as_padded(pts), categorical=types.PaddedArray.as_padded(np.zeros((cfg['prior'], 0), dtype=types.INT_DTYPE)))
+    elif cfg['prior']:
+      best = {'interior': 0.3, 'corner': 1.0, 'categorical': 0.5, 'plateau': 0.0, 'neginf-region': 0.0, 'constant': 0.5, 'posinf-region': 0.95, 'neginf-almost-everywhere': 0.5, 'needles': 0.3}[cfg['score']]
       for k in range(cfg['prior']):
         params = {'x%d' % i: (best if k == 0 else 0.9 - 0.1 * k) for i in range(nc)}
         if cfg.get('prior_out') and k < 2:
@@ -199,6 +225,10 @@ def configs(quick, seed):
         for prior in ([0] if quick else [0, 3]):
           out.append({'layout': [layout[0], list(layout[1])], 'pad': False, 'strategy': 'eagle', 'count': 3, 'batch': 5, 'evals': evals, 'prior': prior,
                       'n_parallel': None, 'score': score, 'seed': seed + 1})
+  # more prior points than the eagle pool holds, the best of them a needle among the oldest ones
+  for needle_at in ([(4, 5), (5, 4), (0, 1), (2, 0)] if quick else [(a, b) for a in range(7) for b in range(7) if a != b]):
+    out.append({'layout': [2, []], 'pad': False, 'strategy': 'eagle', 'count': 3, 'batch': 25, 'evals': 500, 'prior': 30, 'needle_at': list(needle_at),
+                'n_parallel': None, 'score': 'needles', 'seed': seed + 1})
   # prior points lying outside the unit cube (trials of a wider space): the result must still be in bounds, with honest rewards
   for layout in ([LAYOUTS[4], LAYOUTS[5]] if quick else LAYOUTS[1:]):
     for strat in ('eagle', 'random'):
